@@ -12,6 +12,7 @@ import (
 	"math"
 	"math/big"
 	"math/rand/v2"
+	"slices"
 
 	"github.com/nspcc-dev/neo-go/pkg/core/mempoolevent"
 	"github.com/nspcc-dev/neo-go/pkg/core/native/noderoles"
@@ -475,15 +476,23 @@ func initDesignateNotaryRoleAsLeaderTick(ctx context.Context, prm enableNotaryPr
 			initialLen := len(tx.Scripts[1].InvocationScript)
 			var extraLen int
 
-			for _, sig := range mCommitteeIndexToSignature {
-				extraLen += 1 + 1 + len(sig) // opcode + length + value
+			// signatures must follow the order of keys in the verification script
+			sigIndices := make([]int, 0, len(mCommitteeIndexToSignature))
+			for i := range mCommitteeIndexToSignature {
+				sigIndices = append(sigIndices, i)
+			}
+			slices.Sort(sigIndices)
+
+			for _, i := range sigIndices {
+				extraLen += 1 + 1 + len(mCommitteeIndexToSignature[i]) // opcode + length + value
 			}
 
 			tx.Scripts[1].InvocationScript = append(tx.Scripts[1].InvocationScript,
 				make([]byte, extraLen)...)
 			buf := tx.Scripts[1].InvocationScript[initialLen:]
 
-			for _, sig := range mCommitteeIndexToSignature {
+			for _, i := range sigIndices {
+				sig := mCommitteeIndexToSignature[i]
 				buf[0] = byte(opcode.PUSHDATA1)
 				buf[1] = byte(len(sig))
 				buf = buf[2:]
